@@ -195,6 +195,10 @@ def run_case(case):
                     if via == 'history' and (ref.nlev < 2 or limit == 0):
                         continue
                     runs.append((field, limit, vf, via))
+    if case.get('wide'):
+        # several hundred boxes on the refined level: box numbers beyond 127 and 255 in the occupancy map
+        prior_ref = None
+        runs = [(ref.fields[0], None, False, 'reader'), (ref.fields[0], 1, 'volFrac' in ref.fields, 'argument'), (ref.fields[0], 0, False, 'reader')]
     for field, limit, vf, via in runs:
         def path(ctx, field=field, limit=limit, vf=vf, via=via):
             return run_integral(mods, ref, field, limit, vf, via, ctx, prior_ref=prior_ref)
@@ -283,6 +287,10 @@ def cases():
         for k in range(2 if tier == 'quick' else 4):
             out.append({'label': '%s/k%d' % (m.name, k), 'mesh': m, 'fields': fsets[(i + k) % 3],
                         'layout': families.scatter_layouts(m, rnd, max_files=2), 'geom': (i + k) % 3})
+    # many boxes on the refined level (box numbers beyond 127 and 255; beyond 511 in the thorough tier), every fine box over one coarse cell
+    for counts, fine, fields in [((4, 4, 3), 300, fsets[0])] + ([] if tier == 'quick' else [((6, 5, 4), 700, fsets[1]), ((4, 4, 3), 140, fsets[2])]):
+        gm = families.grid_mesh(counts, cell=2, fine=fine)
+        out.append({'label': gm.name, 'mesh': gm, 'fields': fields, 'layout': [families.dealt_layout(nb_, 3, stride=2 + li) for li, nb_ in enumerate(gm.nboxes())], 'geom': 1, 'wide': True})
     n = 0
     while n < (12 if tier == 'quick' else 1200):
         m = families.random_mesh(rnd, 3, max_levels=3, max_boxes=4, max_extent=6, patches=rnd.choice([1, 2, 2]))
@@ -303,7 +311,7 @@ def main():
                 'through the function argument and through the CLI, with and without volFrac')
     rep.assumptions = ['payload real-valued; the obligation is a polynomial identity over the reals (summation order irrelevant, float rounding of the sum outside)',
                        'dyadic cell sizes: dV exact', '2D inputs are refused by the tool and outside']
-    rep.bounds = {'levels': '1-3', 'boxes_per_level': '1-3', 'cells': '<= 320 per level'}
+    rep.bounds = {'levels': '1-3', 'boxes_per_level': '1-3 with every limit x route; 48+300 (quick) / up to 120+700 (thorough) eight-cell boxes with three runs each', 'cells': '<= 320 per level (<= 5600 in the many-box structures)'}
     common.run_cases(rep, run_case, cases())
     from harness import k_lemmas
     k_lemmas.run_into(rep, ['k_pestle'])
